@@ -179,8 +179,11 @@ func runHistory(c hcase, dir, snapRoot string, killAt int) (metas []snapMeta, er
 			hs = int(atomic.LoadInt32(&handed))
 			s = written
 		}
+		// read inGet BEFORE handed: the consumer increments handed and only then clears inGet,
+		// so this can overestimate Hmax by one but never underestimate it
+		ig := atomic.LoadInt32(&inGet)
 		m := snapMeta{K: k, Point: label, Step: step, Lens: append([]int(nil), lens...),
-			Hmax: int(atomic.LoadInt32(&handed) + atomic.LoadInt32(&inGet)), Hs: hs, S: s,
+			Hmax: int(ig + atomic.LoadInt32(&handed)), Hs: hs, S: s,
 			MaxBytes: c.MaxBytes, SyncEvery: c.SyncEvery}
 		if killAt >= 0 {
 			if k == killAt {
@@ -308,6 +311,7 @@ func judge(m snapMeta, E [][]byte, D [][]byte) (sig, msg string, at int) {
 
 // childReopen: reopen snapshots start.. in order, write verdict lines.
 func childReopen(root string, start, end int) {
+	dq.OpenWatchdog = 10 * time.Second
 	out, err := os.OpenFile(filepath.Join(root, "verdicts.jsonl"), os.O_CREATE|os.O_WRONLY|os.O_APPEND, 0644)
 	if err != nil {
 		panic(err)
@@ -329,6 +333,11 @@ func childReopen(root string, start, end int) {
 			if bad >= 12 {
 				break // enough witnesses from this history
 			}
+		}
+		if strings.HasSuffix(v.Sig, "-hang") {
+			// a stuck (possibly spinning) I/O loop stays behind in this process: continue in a fresh one
+			out.Close()
+			os.Exit(3)
 		}
 	}
 	out.Close()
@@ -357,6 +366,12 @@ func reopenOne(m snapMeta, dir string) verdict {
 	var D [][]byte
 	for q.Label == "idle-ready" {
 		msg, ok, err := q.Get()
+		if !ok {
+			// a loaded machine can starve this process: confirm with a much longer wait before calling it a hang
+			q.Watchdog = 45 * time.Second
+			msg, ok, err = q.Get()
+			q.Watchdog = 6 * time.Second
+		}
 		if !ok {
 			return verdict{Sig: "reopen-hang", Msg: "queue at rest claims a message is ready but delivers nothing\n" + trimStack(stacks())}
 		}
@@ -398,6 +413,11 @@ func reopenOne(m snapMeta, dir string) verdict {
 	var C [][]byte
 	for q.Label == "idle-ready" {
 		msg, ok, err := q.Get()
+		if !ok {
+			q.Watchdog = 45 * time.Second
+			msg, ok, err = q.Get()
+			q.Watchdog = 6 * time.Second
+		}
 		if !ok || err != nil {
 			return verdict{Sig: "cont-hang", Msg: "after recovery + fresh puts the queue stopped delivering\n" + trimStack(stacks()), D: len(D), I: at}
 		}
@@ -529,6 +549,10 @@ func judgeSnapshots(res *mon.Result, c hcase, root string, metas []snapMeta) {
 		if werr == nil || next >= len(metas) {
 			return // all snapshots judged (or the child stopped early after many violations)
 		}
+		if ee, ok := werr.(*exec.ExitError); ok && ee.ExitCode() == 3 {
+			start = next // the child reported a hang and left; go on with the next snapshot
+			continue
+		}
 		// the child died (or hung) on snapshot `next`
 		if werr != nil && werr.Error() == "child watchdog" {
 			res.Inconclusive(fmt.Sprintf("history %d snapshot %d: reopen child hit its watchdog", c.Index, next))
@@ -592,6 +616,9 @@ func main() {
 		if !mon.Mine(i) {
 			continue
 		}
+		if o := os.Getenv("VERIF_ONLY"); o != "" && o != fmt.Sprint(i) {
+			continue
+		}
 		c := gen(mon.Seed(), i)
 		res.LogCase("history %d max=%d sync=%d ops=%s", i, c.MaxBytes, c.SyncEvery, c.compact())
 		root := filepath.Join(scratch, "snap")
@@ -613,7 +640,7 @@ func main() {
 	// real-kill sample: the same histories, the process really dies at the point
 	nk := mon.N(24, 1000)
 	for i := 0; i < nk; i++ {
-		if !mon.Mine(i) {
+		if !mon.Mine(i) || os.Getenv("VERIF_ONLY") != "" {
 			continue
 		}
 		idx := i % n
